@@ -110,7 +110,7 @@ func cmdRun(args []string) int {
 		fmt.Fprintln(os.Stderr, "no such harness function")
 		return 2
 	}
-	res := Explore(p, ExploreConfig{Harness: *fn, Entry: entry, Params: params, Workers: *workers, MaxPaths: *maxPaths, SolverMs: 10000, KeepPaths: *keep, MaxViol: 3})
+	res := Explore(p, ExploreConfig{Harness: *fn, Entry: entry, Params: params, Workers: *workers, MaxPaths: *maxPaths, SolverMs: 1500, KeepPaths: *keep, MaxViol: 3})
 	printResult(res, *verbose)
 	if *native {
 		nv, err := ValidateNative(*pkg, res, nil)
@@ -124,6 +124,9 @@ func printResult(res *ExploreResult, verbose bool) {
 		res.Harness, res.Params, res.Paths, res.Outcomes, res.Decisions, res.Steps, res.MaxDepth, res.Wall.Seconds())
 	fmt.Printf("  solver: queries=%d sat=%d unsat=%d unknown=%d time=%.1fs slowest=%.2fs; feasibility=%d assert=%d fmtApprox=%d local(sat=%d unsat=%d)\n",
 		res.Solver.Queries, res.Solver.Sat, res.Solver.Unsat, res.Solver.Unknown, res.Solver.Time.Seconds(), res.Solver.SlowQuery.Seconds(), res.FeasQ, res.AssertQ, res.FmtApprox, res.LocalSat, res.LocalUnsat)
+	if res.StandaloneQ > 0 {
+		fmt.Printf("  stand-alone portfolio: %d queries, %d decided, %.1fs\n", res.StandaloneQ, res.StandaloneOK, res.StandaloneT.Seconds())
+	}
 	fmt.Printf("  worker time: wait=%.1fs run=%.1fs; reached: %v\n", res.WaitT.Seconds(), res.RunT.Seconds(), res.Reached)
 	if res.Incomplete != "" {
 		fmt.Printf("  INCOMPLETE: %s\n", res.Incomplete)
